@@ -14,9 +14,22 @@ an observer is dropped exactly when its count then exceeds the limit -/
 theorem round_spec (s : Subject) (h : Inv s) (path : String) (mid : Nat) (con : Bool) :
     (resourceChanged s path mid con).get path =
       (s.get path).map (fun r =>
-        { sequence := r.sequence + 1,
+        { sequence := seqNext r.sequence,
           observers := (r.observers.map (bump mid con)).filter (fun o => o.unacked ≤ s.limit) }) :=
   (changed_spec s h path mid con).1
+
+/-- "by exactly one": the sequence number is a 32-bit counter; it goes up by one and, after 2^32
+rounds, wraps to 0 instead of overflowing (RFC 7641 sequence numbers are compared modulo) -/
+theorem seq_next_spec (n : Nat) :
+    seqNext n < 2 ^ 32 ∧ (n + 1 < 2 ^ 32 → seqNext n = n + 1) ∧ (n = 2 ^ 32 - 1 → seqNext n = 0) :=
+  seqNext_spec n
+
+/-- only a notification round on the resource itself changes its sequence number -/
+theorem sequence_step (s : Subject) (op : Op) (p : String) (r : Resource) (h : Inv s)
+    (hr : s.get p = some r) :
+    ∃ r', (step s op).get p = some r' ∧
+      (r'.sequence = r.sequence ∨ ((∃ m c, op = .chg p m c) ∧ r'.sequence = seqNext r.sequence)) :=
+  Observe.sequence_step s op p r h hr
 
 theorem bump_spec (mid : Nat) (o : Observer) :
     (bump mid true o).unacked = o.unacked + 1 ∧ (bump mid false o).unacked = o.unacked ∧
@@ -24,12 +37,12 @@ theorem bump_spec (mid : Nat) (o : Observer) :
     (bump mid true o).token = o.token ∧ (bump mid true o).endpoint = o.endpoint := by
   simp [bump]
 
-/-- no operation ever decreases a sequence number, so successive notifications
-are strictly ordered -/
+/-- no operation ever decreases a sequence number before the 32-bit counter wraps, so successive
+notifications are strictly ordered -/
 theorem sequence_mono (s : Subject) (op : Op) (p : String) (r : Resource) (h : Inv s)
-    (hr : s.get p = some r) :
+    (hr : s.get p = some r) (hw : r.sequence + 1 < 2 ^ 32) :
     ∃ r', (step s op).get p = some r' ∧ r.sequence ≤ r'.sequence :=
-  Observe.sequence_mono s op p r h hr
+  Observe.sequence_mono s op p r h hr hw
 
 /-- an acknowledgement from the same endpoint for the most recent notification's
 message id resets the count; acknowledgements with another endpoint or message
